@@ -692,6 +692,7 @@ Lemma timer_from_handle_spec : forall h st i t, timer_from_handle h st = Some (i
   nth_error (timers st) i = Some t /\ t_check t = h / TWO32 /\ h <> 0.
 Proof.
   intros h st i t. unfold timer_from_handle. destruct (h =? 0) eqn:E; [discriminate|]. apply Z.eqb_neq in E.
+  destruct (h / TWO32 =? 0); [discriminate|].
   destruct (nth_error (timers st) _) as [t'|] eqn:N; [|discriminate].
   destruct (t_check t' =? h / TWO32) eqn:C; [|discriminate]. intros H; inversion H; subst.
   apply Z.eqb_eq in C. auto.
